@@ -161,10 +161,11 @@ def judgeReflect (impl : List String) : Judged :=
           if ¬ flagsOK ents (avpFieldCodes find (.struct fs)) ias then
             fails := fails ++ ["C18:avp-flags-or-vendor-not-from-dictionary"]
         | none => pure ()
-        if (kv impl "len").getD "ok" ≠ "ok" then fails := fails ++ ["C02:header-length-after-marshal"]
+        if (kv impl "len").getD "ok" ≠ "ok" then fails := fails ++ ["C02:header-length-after-marshal", "C18:header-length-after-marshal"]
         match again with
         | some "same" | none => pure ()
         | some "struct-changed" => fails := fails ++ ["C18:adding-to-the-message-changed-the-struct"]
+        | some "changed-by-unmarshal" => fails := fails ++ ["C06:message-changed-by-unmarshalling-a-later-message", "C18:message-changed-by-unmarshalling-a-later-message"]
         | some _ => fails := fails ++ ["C18:earlier-message-changed-by-a-later-marshal"]
         if wf then
           if iM.startsWith "err" then fails := fails ++ ["C18:well-formed-struct-rejected"]
